@@ -433,7 +433,12 @@ func bucketToGo(b Bucket, sp Spelling, typedAlg bool) map[any]any {
 		lbl, isInt := k.Int64()
 		isInt = isInt && k.IsInt()
 		var gk any
-		if isInt && (critNamed[lbl] || lbl == refcose.LCrit || (lbl == refcose.LAlg && !sp.AlgLabel)) {
+		// Without AlgLabel ("spell every label") the labels go-cose itself
+		// looks up stay int64: alg, crit and the labels a crit entry names
+		// (the crit entries themselves are spelt int64, and before the
+		// label-lookup repair an entry only found its parameter under the
+		// same Go type).
+		if isInt && !sp.AlgLabel && (critNamed[lbl] || lbl == refcose.LCrit || lbl == refcose.LAlg) {
 			gk = itemToGo(k, plain, true)
 		} else {
 			gk = itemToGo(k, sp, true)
